@@ -109,6 +109,9 @@ func main() {
 			}
 			for _, s := range p.Facts(fn).BoundSites() {
 				tot++
+				if os.Getenv("ALL") != "" && s.OK {
+					fmt.Printf("%s: OK %s: %s :: %s\n", p.Pos(s.In.Pos()), FnName(fn), trunc(s.Expr, 80), trunc(s.Why, 160))
+				}
 				if !s.OK {
 					bad++
 					fmt.Printf("%s: %s: %s :: %s\n", p.Pos(s.In.Pos()), FnName(fn), trunc(s.Expr, 80), trunc(s.Why, 160))
@@ -184,6 +187,28 @@ func main() {
 		r.Level = lv
 	}
 	f(r)
+	if tier == "thorough" && os.Getenv("VERIF_WITNESS_PATCH") == "" {
+		// self-test: the property's rules must fire on every stored witness change (overlay, nothing executed)
+		ws := runWitnesses(id)
+		r.Extra["witnesses"] = ws
+		fired, silent := 0, 0
+		for _, w := range ws {
+			fmt.Printf("  witness %-40s %s %s\n", w.Patch, w.Result, w.Detail)
+			switch w.Result {
+			case "fired":
+				fired++
+			case "silent":
+				silent++
+			}
+		}
+		r.Units["witness changes fired"] = fired
+		code := r.Finish()
+		if code == 0 && silent > 0 {
+			fmt.Fprintf(os.Stderr, "SELFTEST-FAILED: %d stored witness change(s) that break %s were not reported: the rule set is blind, no verdict\n", silent, id)
+			os.Exit(2)
+		}
+		os.Exit(code)
+	}
 	os.Exit(r.Finish())
 }
 
